@@ -301,54 +301,326 @@ theorem cmp_bind_ty {α β : Type} (x : Except Err Bool) (a : Except Err α) (g 
   | error e => rfl
   | ok e => cases e <;> simp
 
+theorem blkAdd_ty (a b : BlkV R) (wf : Except Err (DOp R)) (wfT : Except Err DTy) (h : wf.map DOp.ty = wfT)
+    (doms rans duals : List (Option Nat)) :
+    (Except.map Obj.ty do
+      let e1 ← cmpSpaces a.doms b.doms
+      if e1 = true then do
+          let e2 ← cmpSpaces a.rans b.rans
+          if e2 = true then do
+              let e3 ← cmpSpaces a.duals b.duals
+              if e3 = true then pure (Obj.blk { doms := doms, rans := rans, duals := duals, log := none, wf := wf })
+                else throw Err.value
+            else throw Err.value
+        else throw Err.value) =
+    (do
+    let e1 ← cmpSpaces a.doms b.doms
+    if e1 = true then do
+        let e2 ← cmpSpaces a.rans b.rans
+        if e2 = true then do
+            let e3 ← cmpSpaces a.duals b.duals
+            if e3 = true then pure (Ty.blk doms rans duals none wfT)
+              else throw Err.value
+          else throw Err.value
+      else throw Err.value) := by
+  subst h
+  cases cmpSpaces a.doms b.doms with
+  | error e => rfl
+  | ok e1 =>
+    cases e1 with
+    | false => rfl
+    | true =>
+      simp only [bind_ok, if_true]
+      cases cmpSpaces a.rans b.rans with
+      | error e => rfl
+      | ok e2 =>
+        cases e2 with
+        | false => rfl
+        | true =>
+          simp only [bind_ok, if_true]
+          cases cmpSpaces a.duals b.duals with
+          | error e => rfl
+          | ok e3 =>
+            cases e3 with
+            | false => rfl
+            | true => rfl
+
 theorem addV_ty (p : Pool R) (x y : Obj R) : (addV p x y).map Obj.ty = addT p x.ty y.ty := by
-  cases x <;> cases y <;> simp only [addV, addT, Obj.ty, map_ok, map_error] <;> try rfl
-  all_goals try (split <;> rfl)
-  · -- bop + bop
-    rename_i a b
+  cases x <;> cases y <;> simp only [addV, addT, Obj.ty, map_ok, map_error]
+  case bop.bop a b =>
     split
     · simp only [map_ok, Obj.ty]
       rw [wf2_ty a.wf b.wf dAdd dAddT dAdd_ty]
     · rfl
-  · -- gf + gf
-    rename_i a b
+  case gf.gf a b =>
     split
     · rename_i h
       rw [map_map]
       exact gfAdd_ty p a b h
     · rfl
-  · -- pot + pot
-    rename_i a b
-    split <;> simp [Obj.ty, PTree.cplx]
-  · -- blk + blk
-    rename_i a b
-    cases cmpSpaces a.doms b.doms with
-    | error e => rfl
-    | ok e1 =>
-      cases e1 with
-      | false => rfl
-      | true =>
-        simp only [bind_ok, if_true]
-        cases cmpSpaces a.rans b.rans with
-        | error e => rfl
-        | ok e2 =>
-          cases e2 with
-          | false => rfl
-          | true =>
-            simp only [bind_ok, if_true]
-            cases cmpSpaces a.duals b.duals with
-            | error e => rfl
-            | ok e3 =>
-              cases e3 with
-              | false => rfl
-              | true =>
-                simp only [bind_ok, if_true, pure_eq, map_ok, Obj.ty, Option.map_none]
-                rw [wf2_ty a.wf b.wf dAdd dAddT dAdd_ty]
-  · -- gfl + gfl
-    simp [List.map_append]
-  · -- dop + dop
-    rename_i a b
+  case blk.blk a b =>
+    exact blkAdd_ty a b _ _ (wf2_ty a.wf b.wf dAdd dAddT dAdd_ty) _ _ _
+  case gfl.gfl a b => simp [List.map_append]
+  case dop.dop a b =>
     rw [map_map, ← dAdd_ty]
     cases dAdd a b <;> rfl
+  all_goals first
+    | rfl
+    | (split <;> rfl)
+
+theorem neg_add_ty (p : Pool R) (x y : Obj R) :
+    ((negV y >>= fun ny => addV p x ny).map Obj.ty) = (negT y.ty >>= fun ny => addT p x.ty ny) := by
+  rw [← negV_ty]
+  cases negV y with
+  | error e => rfl
+  | ok ny => simpa using addV_ty p x ny
+
+theorem subV_ty (p : Pool R) (x y : Obj R) : (subV p x y).map Obj.ty = subT p x.ty y.ty := by
+  cases x <;> cases y <;> simp only [subV, subT, Obj.ty, map_ok, map_error]
+  case gf.gf a b =>
+    split
+    · rename_i h
+      rw [map_map]
+      have := gfAdd_ty p a (gfScale (-1) false b) (by simpa [gfScale] using h)
+      simpa [gfScale, Function.comp_def] using this
+    · rfl
+  all_goals first
+    | rfl
+    | (split <;> rfl)
+    | exact neg_add_ty p _ _
+
+theorem mul_bop_bop_ty (p : Pool R) (a b : BOpV R) :
+    Except.map DOp.ty (a.wf >>= fun x => strongB p b >>= fun s => dMul x s)
+      = (Except.map DOp.ty a.wf >>= fun x => strongBT p b.ran b.dual (Except.map DOp.ty b.wf) >>= fun s => dMulT x s) := by
+  rw [← strongB_ty]
+  exact wf2_ty a.wf (strongB p b) dMul dMulT dMul_ty
+
+theorem mul_blk_blk_ty (p : Pool R) (a b : BlkV R) :
+    Except.map DOp.ty (a.wf >>= fun x => strongK p b >>= fun s => dMul x s)
+      = (Except.map DOp.ty a.wf >>= fun x => strongKT p b.rans b.duals (Except.map DOp.ty b.wf) >>= fun s => dMulT x s) := by
+  rw [← strongK_ty]
+  exact wf2_ty a.wf (strongK p b) dMul dMulT dMul_ty
+
+theorem mul_bop_gf_ty (p : Pool R) (a : BOpV R) (g : GfV R) :
+    Except.map Obj.ty (a.wf >>= fun w => gfCoeffs p g >>= fun x =>
+        pure (Obj.gf ⟨a.ran, some a.dual, w.cplx || g.c, w.matvec g.c x⟩))
+      = (Except.map DOp.ty a.wf >>= fun w => coeffsT p g.space g.dual >>= fun _ =>
+        pure (Ty.gf a.ran (some a.dual) (w.c || g.c))) := by
+  rw [← gfCoeffs_ty]
+  cases a.wf with
+  | error e => rfl
+  | ok w => cases gfCoeffs p g <;> simp [Obj.ty, DOp.ty]
+
+theorem mul_pot_gf_ty (p : Pool R) (q : PotV R) (g : GfV R) :
+    Except.map Obj.ty (gfCoeffs p g >>= fun x => pure (Obj.arr (q.t.cplx || g.c) (q.t.eval g.c x)))
+      = (coeffsT p g.space g.dual >>= fun _ => pure (Ty.arr (q.t.cplx || g.c))) := by
+  rw [← gfCoeffs_ty]
+  cases gfCoeffs p g <;> simp [Obj.ty]
+
+theorem mul_blk_blk_outer_ty (a b : BlkV R) (wf : Except Err (DOp R)) (wfT : Except Err DTy)
+    (h : wf.map DOp.ty = wfT) (doms rans duals : List (Option Nat)) :
+    (Except.map Obj.ty do
+      let e ← cmpSpaces b.rans a.doms
+      if e = true then pure (Obj.blk { doms := doms, rans := rans, duals := duals, log := none, wf := wf })
+      else throw Err.value) =
+    (do
+      let e ← cmpSpaces b.rans a.doms
+      if e = true then pure (Ty.blk doms rans duals none wfT) else throw Err.value) := by
+  subst h
+  cases cmpSpaces b.rans a.doms with
+  | error e => rfl
+  | ok e => cases e <;> rfl
+
+theorem mulV_ty (p : Pool R) (mm : Bool) (x y : Obj R) : (mulV p mm x y).map Obj.ty = mulT p mm x.ty y.ty := by
+  cases mm <;> cases x <;> cases y <;> simp only [mulV, mulT, Obj.ty, map_ok, map_error, Bool.false_eq_true, if_false, if_true]
+  all_goals first
+    | rfl
+    | (split <;> rfl)
+    | exact scaleV_ty _ _ _ _
+    | exact blkApply_ty p _ _
+    | exact mul_blk_blk_outer_ty _ _ _ _ (mul_blk_blk_ty p _ _) _ _ _
+    | (split
+       · simp only [map_ok, Obj.ty]; rw [mul_bop_bop_ty]
+       · rfl)
+    | (split
+       · exact mul_bop_gf_ty p _ _
+       · rfl)
+    | (split
+       · exact mul_pot_gf_ty p _ _
+       · rfl)
+    | (rw [map_map, ← dMul_ty]; rename_i a b; cases dMul a b <;> rfl)
+
+theorem weakV_ty (x : Obj R) : (weakV x).map Obj.ty = weakT x.ty := by
+  cases x <;> simp only [weakV, weakT, Obj.ty, map_error] <;> first | rfl | (rw [map_map, map_map]; rfl)
+
+theorem strongV_ty (p : Pool R) (x : Obj R) : (strongV p x).map Obj.ty = strongT p x.ty := by
+  cases x <;> simp only [strongV, strongT, Obj.ty, map_error]
+  case bop b => rw [← strongB_ty, map_map, map_map]; rfl
+  case blk k => rw [← strongK_ty, map_map, map_map]; rfl
+  all_goals rfl
+
+theorem transposeV_ty (x : Obj R) : (transposeV x).map Obj.ty = transposeT x.ty := by
+  cases x <;> simp only [transposeV, transposeT, Obj.ty, map_error]
+  case dop d => rw [← dTranspose_ty, map_map, map_map]; rfl
+  all_goals first | rfl | (split <;> rfl)
+
+theorem adjointV_ty (x : Obj R) : (adjointV x).map Obj.ty = adjointT x.ty := by
+  cases x <;> simp only [adjointV, adjointT, Obj.ty, map_error]
+  case dop d => rw [← dAdjoint_ty, map_map, map_map]; rfl
+  all_goals rfl
+
+theorem lconsV_ty (x y : Obj R) : (lconsV x y).map Obj.ty = lconsT x.ty y.ty := by
+  cases x <;> cases y <;> simp [lconsV, lconsT, Obj.ty, GfV.ty]
+
+theorem blkSet_nonbop (kb : BlkV R) (i j : Nat) :
+    Except.map Obj.ty
+      (match kb.log with
+      | none => Except.error Err.type
+      | some _ =>
+        if i < kb.rans.length then
+          if (kb.rans.getD i none).isSome = true then (Except.error Err.attr : Except Err (Obj R))
+          else if j < kb.doms.length then Except.error Err.attr else Except.error Err.index
+        else Except.error Err.index) =
+    match
+      Option.map (fun l => List.map (fun e => (e.fst, e.snd.fst, Except.map (fun x => x.fst) e.snd.snd)) l) kb.log with
+    | none => Except.error Err.type
+    | some _ =>
+      if i < kb.rans.length then
+        if (kb.rans.getD i none).isSome = true then Except.error Err.attr
+        else if j < kb.doms.length then Except.error Err.attr else Except.error Err.index
+      else Except.error Err.index := by
+  cases kb.log with
+  | none => rfl
+  | some log =>
+    simp only [Option.map_some]
+    by_cases h1 : i < kb.rans.length <;> by_cases h2 : (kb.rans.getD i none).isSome = true <;>
+      by_cases h3 : j < kb.doms.length <;> simp only [h1, h2, h3, if_true, if_false, map_error, Bool.false_eq_true]
+
+theorem blkSetV_ty (p : Pool R) (k : Obj R) (i j : Nat) (o : Obj R) :
+    (blkSetV p k i j o).map Obj.ty = blkSetT p k.ty i j o.ty := by
+  cases k with
+  | blk kb =>
+    cases o with
+    | bop b =>
+      simp only [blkSetV, blkSetT, Obj.ty]
+      cases kb.log with
+      | none => rfl
+      | some log =>
+        simp only [Option.map_some]
+        split
+        · split
+          · split
+            · split
+              · simp only [map_ok, Obj.ty, Option.map_some, blockOf]
+                rw [assembleBlk_ty]
+                simp [eraseLog, map_map, Function.comp_def, DOp.ty]
+              · rfl
+            · rfl
+          · rfl
+        · rfl
+    | arr c v => rfl
+    | scalar c np v => simp only [blkSetV, blkSetT, Obj.ty]; exact blkSet_nonbop kb i j
+    | gf g => simp only [blkSetV, blkSetT, Obj.ty]; exact blkSet_nonbop kb i j
+    | pot q => simp only [blkSetV, blkSetT, Obj.ty]; exact blkSet_nonbop kb i j
+    | blk k2 => simp only [blkSetV, blkSetT, Obj.ty]; exact blkSet_nonbop kb i j
+    | gfl l => simp only [blkSetV, blkSetT, Obj.ty]; exact blkSet_nonbop kb i j
+    | dop d => simp only [blkSetV, blkSetT, Obj.ty]; exact blkSet_nonbop kb i j
+  | arr c v => cases o <;> rfl
+  | scalar c np v => cases o <;> rfl
+  | bop b => cases o <;> rfl
+  | gf g => cases o <;> rfl
+  | pot q => cases o <;> rfl
+  | gfl l => cases o <;> rfl
+  | dop d => cases o <;> rfl
+
+/-! ### whole programs -/
+
+theorem bind2_ty (ea eb : Except Err (Obj R)) (ta tb : Except Err Ty) (f : Obj R → Obj R → Except Err (Obj R))
+    (fT : Ty → Ty → Except Err Ty) (ha : ea.map Obj.ty = ta) (hb : eb.map Obj.ty = tb)
+    (hf : ∀ x y, (f x y).map Obj.ty = fT x.ty y.ty) :
+    (ea >>= fun x => eb >>= fun y => f x y).map Obj.ty = (ta >>= fun x => tb >>= fun y => fT x y) := by
+  subst ha hb
+  cases ea with
+  | error e => rfl
+  | ok a => cases eb with
+    | error e => rfl
+    | ok b => simpa using hf a b
+
+theorem bind1_ty (ea : Except Err (Obj R)) (ta : Except Err Ty) (f : Obj R → Except Err (Obj R))
+    (fT : Ty → Except Err Ty) (ha : ea.map Obj.ty = ta) (hf : ∀ x, (f x).map Obj.ty = fT x.ty) :
+    (ea >>= fun x => f x).map Obj.ty = (ta >>= fun x => fT x) := by
+  subst ha
+  cases ea with
+  | error e => rfl
+  | ok a => simpa using hf a
+
+/-- The interpreter raises exactly when the type checker does (same exception class), and otherwise returns a value
+of the computed type. -/
+theorem eval_type (p : Pool R) (e : Expr R) : (eval p e).map Obj.ty = typecheck p e := by
+  induction e with
+  | sc c np v => rfl
+  | op i =>
+    simp only [eval, typecheck]
+    cases p.ops[i]? with
+    | none => rfl
+    | some l => simp [Obj.ty, opLeafV, DOp.ty, DOp.cplx, DOp.rows, DOp.cols]; cases l.dense <;> simp [DOp.conc]
+  | gf i =>
+    simp only [eval, typecheck]
+    cases p.gfs[i]? <;> rfl
+  | pot i =>
+    simp only [eval, typecheck]
+    cases p.pots[i]? <;> rfl
+  | add a b iha ihb => exact bind2_ty _ _ _ _ _ _ iha ihb (addV_ty p)
+  | sub a b iha ihb => exact bind2_ty _ _ _ _ _ _ iha ihb (subV_ty p)
+  | mul a b iha ihb => exact bind2_ty _ _ _ _ _ _ iha ihb (mulV_ty p false)
+  | matmul a b iha ihb => exact bind2_ty _ _ _ _ _ _ iha ihb (mulV_ty p true)
+  | neg a ih => exact bind1_ty _ _ _ _ ih negV_ty
+  | weak a ih => exact bind1_ty _ _ _ _ ih weakV_ty
+  | strong a ih => exact bind1_ty _ _ _ _ ih (strongV_ty p)
+  | transpose a ih => exact bind1_ty _ _ _ _ ih transposeV_ty
+  | adjoint a ih => exact bind1_ty _ _ _ _ ih adjointV_ty
+  | blkEmpty m n =>
+    simp only [eval, typecheck]
+    split
+    · simp only [map_ok, Obj.ty, Option.map_some, List.map_nil]
+      rw [assembleBlk_ty]
+      rfl
+    · rfl
+  | blkSet k i j o ihk iho => exact bind2_ty _ _ _ _ _ _ ihk iho (fun x y => blkSetV_ty p x i j y)
+  | lnil => rfl
+  | lcons g l ihg ihl => exact bind2_ty _ _ _ _ _ _ ihg ihl lconsV_ty
+
+theorem obsGfs_ty (p : Pool R) (l : List (GfV R)) :
+    (obsGfs p l).map (fun _ => ()) = coeffsListT p (l.map GfV.ty) := by
+  induction l with
+  | nil => rfl
+  | cons g l ih =>
+    simp only [obsGfs, List.map_cons, coeffsListT, GfV.ty, obsGf]
+    rw [← gfCoeffs_ty, ← ih]
+    cases gfCoeffs p g with
+    | error e => simp
+    | ok c => cases obsGfs p l <;> simp
+
+/-- reading out a value fails exactly when the type says so -/
+theorem observe_type (p : Pool R) (probe : Nat → Vec R) (v : Obj R) :
+    (observe p probe v).map (fun _ => ()) = observeT p v.ty := by
+  cases v <;> simp only [observe, observeT, Obj.ty, map_ok, map_map]
+  case bop b => cases b.wf <;> rfl
+  case blk k => cases k.wf <;> rfl
+  case gf g =>
+    rw [← gfCoeffs_ty]
+    simp only [obsGf]
+    cases gfCoeffs p g <;> rfl
+  case gfl l =>
+    rw [← obsGfs_ty]
+
+/-- a whole program returns numbers exactly when it passes the check, with the same exception class otherwise -/
+theorem run_check (p : Pool R) (probe : Nat → Vec R) (e : Expr R) :
+    (run p probe e).map (fun _ => ()) = check p e := by
+  unfold run check
+  rw [← eval_type]
+  cases eval p e with
+  | error err => rfl
+  | ok v => simpa using observe_type p probe v
 
 end BemppVerif.Lemmas.AlgType
